@@ -5,7 +5,7 @@ import importlib
 import sys
 import traceback
 
-MODULES = ["vlib.refsvg.test_pathgrammar"]
+MODULES = ["vlib.refsvg.test_pathgrammar", "vlib.refsvg.test_arcref"]
 
 
 def main():
